@@ -87,6 +87,17 @@ CLAIMED.update({
     ),
 })
 
+CLAIMED.update({
+    "C18": dict(
+        technique="domain derivation from partial operations + constant folding over the order types of the parameters (sign classes), compared with the declared *_range; stage-sequence (mirror) comparison of the two pipelines; order-type evaluation of the range test",
+        text="For each of the 6 normalizers, both directions and every sign class of every parameter (order types against the special values and coefficient sign changes), the "
+        "declared open range must equal the interval on which the transform's log/log1p/non-integer-power operands (affine in the data) are positive - this is what makes out-of-range "
+        "input NaN and in-range values invertible; apply/remove pipelines must be mirror images with paired inverse functions and reciprocal exponents per special-value branch; the "
+        "NaN template and open-interval test are evaluated over all order types. Does not decide monotonicity, derivative correctness or likelihood/fit. Two genuine defects repaired.",
+        ref="DESIGN.md section 4 C18",
+    ),
+})
+
 NOT_APPLICABLE = {
     "C01": "distributional property over seeds (ensemble mean/covariance at Monte-Carlo rate); no code-shape clause beyond those decided under C04/C11/C12 - needs sampling or quadrature, a different technique family",
 }
@@ -139,7 +150,7 @@ def main():
     print("MANIFEST.json: %d checks, %d not_applicable" % (len(checks), len(na)))
 
 
-SOURCE_COMMITS = ["c203823", "0fd70cf", "8261140", "84533cc", "edeae19", "d657645", "566cb9d", "703cc68"]
+SOURCE_COMMITS = ["c203823", "0fd70cf", "8261140", "84533cc", "edeae19", "d657645", "566cb9d", "703cc68", "c388d81", "c08711b"]
 
 if __name__ == "__main__":
     main()
